@@ -57,35 +57,38 @@ Record conn := mkconn {
   authed : Z;
   unsolicited : bool;
   app_events : Z;
-  desync : bool
+  desync : bool;
+  olog : list (Z * Z);
+  deleg : bool
 }.
 
-Definition set_srv (v : bool) (c : conn) : conn := mkconn v (strict c) (sid c) (kex c) (kexinit_sent c) (kex_complete c) (send_enc c) (recv_enc c) (next_recv c) (can_recv_ext c) (next_service c) (auth_in_prog c) (auth c) (req_issued c) (methods c) (auth_complete c) (auth_final c) (user c) (deferred c) (pending c) (closed c) (authed c) (unsolicited c) (app_events c) (desync c).
-Definition set_strict (v : bool) (c : conn) : conn := mkconn (srv c) v (sid c) (kex c) (kexinit_sent c) (kex_complete c) (send_enc c) (recv_enc c) (next_recv c) (can_recv_ext c) (next_service c) (auth_in_prog c) (auth c) (req_issued c) (methods c) (auth_complete c) (auth_final c) (user c) (deferred c) (pending c) (closed c) (authed c) (unsolicited c) (app_events c) (desync c).
-Definition set_sid (v : bool) (c : conn) : conn := mkconn (srv c) (strict c) v (kex c) (kexinit_sent c) (kex_complete c) (send_enc c) (recv_enc c) (next_recv c) (can_recv_ext c) (next_service c) (auth_in_prog c) (auth c) (req_issued c) (methods c) (auth_complete c) (auth_final c) (user c) (deferred c) (pending c) (closed c) (authed c) (unsolicited c) (app_events c) (desync c).
-Definition set_kex (v : bool) (c : conn) : conn := mkconn (srv c) (strict c) (sid c) v (kexinit_sent c) (kex_complete c) (send_enc c) (recv_enc c) (next_recv c) (can_recv_ext c) (next_service c) (auth_in_prog c) (auth c) (req_issued c) (methods c) (auth_complete c) (auth_final c) (user c) (deferred c) (pending c) (closed c) (authed c) (unsolicited c) (app_events c) (desync c).
-Definition set_kexinit_sent (v : bool) (c : conn) : conn := mkconn (srv c) (strict c) (sid c) (kex c) v (kex_complete c) (send_enc c) (recv_enc c) (next_recv c) (can_recv_ext c) (next_service c) (auth_in_prog c) (auth c) (req_issued c) (methods c) (auth_complete c) (auth_final c) (user c) (deferred c) (pending c) (closed c) (authed c) (unsolicited c) (app_events c) (desync c).
-Definition set_kex_complete (v : bool) (c : conn) : conn := mkconn (srv c) (strict c) (sid c) (kex c) (kexinit_sent c) v (send_enc c) (recv_enc c) (next_recv c) (can_recv_ext c) (next_service c) (auth_in_prog c) (auth c) (req_issued c) (methods c) (auth_complete c) (auth_final c) (user c) (deferred c) (pending c) (closed c) (authed c) (unsolicited c) (app_events c) (desync c).
-Definition set_send_enc (v : bool) (c : conn) : conn := mkconn (srv c) (strict c) (sid c) (kex c) (kexinit_sent c) (kex_complete c) v (recv_enc c) (next_recv c) (can_recv_ext c) (next_service c) (auth_in_prog c) (auth c) (req_issued c) (methods c) (auth_complete c) (auth_final c) (user c) (deferred c) (pending c) (closed c) (authed c) (unsolicited c) (app_events c) (desync c).
-Definition set_recv_enc (v : bool) (c : conn) : conn := mkconn (srv c) (strict c) (sid c) (kex c) (kexinit_sent c) (kex_complete c) (send_enc c) v (next_recv c) (can_recv_ext c) (next_service c) (auth_in_prog c) (auth c) (req_issued c) (methods c) (auth_complete c) (auth_final c) (user c) (deferred c) (pending c) (closed c) (authed c) (unsolicited c) (app_events c) (desync c).
-Definition set_next_recv (v : bool) (c : conn) : conn := mkconn (srv c) (strict c) (sid c) (kex c) (kexinit_sent c) (kex_complete c) (send_enc c) (recv_enc c) v (can_recv_ext c) (next_service c) (auth_in_prog c) (auth c) (req_issued c) (methods c) (auth_complete c) (auth_final c) (user c) (deferred c) (pending c) (closed c) (authed c) (unsolicited c) (app_events c) (desync c).
-Definition set_can_recv_ext (v : bool) (c : conn) : conn := mkconn (srv c) (strict c) (sid c) (kex c) (kexinit_sent c) (kex_complete c) (send_enc c) (recv_enc c) (next_recv c) v (next_service c) (auth_in_prog c) (auth c) (req_issued c) (methods c) (auth_complete c) (auth_final c) (user c) (deferred c) (pending c) (closed c) (authed c) (unsolicited c) (app_events c) (desync c).
-Definition set_next_service (v : bool) (c : conn) : conn := mkconn (srv c) (strict c) (sid c) (kex c) (kexinit_sent c) (kex_complete c) (send_enc c) (recv_enc c) (next_recv c) (can_recv_ext c) v (auth_in_prog c) (auth c) (req_issued c) (methods c) (auth_complete c) (auth_final c) (user c) (deferred c) (pending c) (closed c) (authed c) (unsolicited c) (app_events c) (desync c).
-Definition set_auth_in_prog (v : bool) (c : conn) : conn := mkconn (srv c) (strict c) (sid c) (kex c) (kexinit_sent c) (kex_complete c) (send_enc c) (recv_enc c) (next_recv c) (can_recv_ext c) (next_service c) v (auth c) (req_issued c) (methods c) (auth_complete c) (auth_final c) (user c) (deferred c) (pending c) (closed c) (authed c) (unsolicited c) (app_events c) (desync c).
-Definition set_auth (v : Z) (c : conn) : conn := mkconn (srv c) (strict c) (sid c) (kex c) (kexinit_sent c) (kex_complete c) (send_enc c) (recv_enc c) (next_recv c) (can_recv_ext c) (next_service c) (auth_in_prog c) v (req_issued c) (methods c) (auth_complete c) (auth_final c) (user c) (deferred c) (pending c) (closed c) (authed c) (unsolicited c) (app_events c) (desync c).
-Definition set_req_issued (v : bool) (c : conn) : conn := mkconn (srv c) (strict c) (sid c) (kex c) (kexinit_sent c) (kex_complete c) (send_enc c) (recv_enc c) (next_recv c) (can_recv_ext c) (next_service c) (auth_in_prog c) (auth c) v (methods c) (auth_complete c) (auth_final c) (user c) (deferred c) (pending c) (closed c) (authed c) (unsolicited c) (app_events c) (desync c).
-Definition set_methods (v : list Z) (c : conn) : conn := mkconn (srv c) (strict c) (sid c) (kex c) (kexinit_sent c) (kex_complete c) (send_enc c) (recv_enc c) (next_recv c) (can_recv_ext c) (next_service c) (auth_in_prog c) (auth c) (req_issued c) v (auth_complete c) (auth_final c) (user c) (deferred c) (pending c) (closed c) (authed c) (unsolicited c) (app_events c) (desync c).
-Definition set_auth_complete (v : bool) (c : conn) : conn := mkconn (srv c) (strict c) (sid c) (kex c) (kexinit_sent c) (kex_complete c) (send_enc c) (recv_enc c) (next_recv c) (can_recv_ext c) (next_service c) (auth_in_prog c) (auth c) (req_issued c) (methods c) v (auth_final c) (user c) (deferred c) (pending c) (closed c) (authed c) (unsolicited c) (app_events c) (desync c).
-Definition set_auth_final (v : bool) (c : conn) : conn := mkconn (srv c) (strict c) (sid c) (kex c) (kexinit_sent c) (kex_complete c) (send_enc c) (recv_enc c) (next_recv c) (can_recv_ext c) (next_service c) (auth_in_prog c) (auth c) (req_issued c) (methods c) (auth_complete c) v (user c) (deferred c) (pending c) (closed c) (authed c) (unsolicited c) (app_events c) (desync c).
-Definition set_user (v : Z) (c : conn) : conn := mkconn (srv c) (strict c) (sid c) (kex c) (kexinit_sent c) (kex_complete c) (send_enc c) (recv_enc c) (next_recv c) (can_recv_ext c) (next_service c) (auth_in_prog c) (auth c) (req_issued c) (methods c) (auth_complete c) (auth_final c) v (deferred c) (pending c) (closed c) (authed c) (unsolicited c) (app_events c) (desync c).
-Definition set_deferred (v : list Z) (c : conn) : conn := mkconn (srv c) (strict c) (sid c) (kex c) (kexinit_sent c) (kex_complete c) (send_enc c) (recv_enc c) (next_recv c) (can_recv_ext c) (next_service c) (auth_in_prog c) (auth c) (req_issued c) (methods c) (auth_complete c) (auth_final c) (user c) v (pending c) (closed c) (authed c) (unsolicited c) (app_events c) (desync c).
-Definition set_pending (v : list task) (c : conn) : conn := mkconn (srv c) (strict c) (sid c) (kex c) (kexinit_sent c) (kex_complete c) (send_enc c) (recv_enc c) (next_recv c) (can_recv_ext c) (next_service c) (auth_in_prog c) (auth c) (req_issued c) (methods c) (auth_complete c) (auth_final c) (user c) (deferred c) v (closed c) (authed c) (unsolicited c) (app_events c) (desync c).
-Definition set_closed (v : bool) (c : conn) : conn := mkconn (srv c) (strict c) (sid c) (kex c) (kexinit_sent c) (kex_complete c) (send_enc c) (recv_enc c) (next_recv c) (can_recv_ext c) (next_service c) (auth_in_prog c) (auth c) (req_issued c) (methods c) (auth_complete c) (auth_final c) (user c) (deferred c) (pending c) v (authed c) (unsolicited c) (app_events c) (desync c).
-Definition set_authed (v : Z) (c : conn) : conn := mkconn (srv c) (strict c) (sid c) (kex c) (kexinit_sent c) (kex_complete c) (send_enc c) (recv_enc c) (next_recv c) (can_recv_ext c) (next_service c) (auth_in_prog c) (auth c) (req_issued c) (methods c) (auth_complete c) (auth_final c) (user c) (deferred c) (pending c) (closed c) v (unsolicited c) (app_events c) (desync c).
-Definition set_unsolicited (v : bool) (c : conn) : conn := mkconn (srv c) (strict c) (sid c) (kex c) (kexinit_sent c) (kex_complete c) (send_enc c) (recv_enc c) (next_recv c) (can_recv_ext c) (next_service c) (auth_in_prog c) (auth c) (req_issued c) (methods c) (auth_complete c) (auth_final c) (user c) (deferred c) (pending c) (closed c) (authed c) v (app_events c) (desync c).
-Definition set_app_events (v : Z) (c : conn) : conn := mkconn (srv c) (strict c) (sid c) (kex c) (kexinit_sent c) (kex_complete c) (send_enc c) (recv_enc c) (next_recv c) (can_recv_ext c) (next_service c) (auth_in_prog c) (auth c) (req_issued c) (methods c) (auth_complete c) (auth_final c) (user c) (deferred c) (pending c) (closed c) (authed c) (unsolicited c) v (desync c).
-Definition set_desync (v : bool) (c : conn) : conn := mkconn (srv c) (strict c) (sid c) (kex c) (kexinit_sent c) (kex_complete c) (send_enc c) (recv_enc c) (next_recv c) (can_recv_ext c) (next_service c) (auth_in_prog c) (auth c) (req_issued c) (methods c) (auth_complete c) (auth_final c) (user c) (deferred c) (pending c) (closed c) (authed c) (unsolicited c) (app_events c) v.
-
+Definition set_srv (v : bool) (c : conn) : conn := mkconn v (strict c) (sid c) (kex c) (kexinit_sent c) (kex_complete c) (send_enc c) (recv_enc c) (next_recv c) (can_recv_ext c) (next_service c) (auth_in_prog c) (auth c) (req_issued c) (methods c) (auth_complete c) (auth_final c) (user c) (deferred c) (pending c) (closed c) (authed c) (unsolicited c) (app_events c) (desync c) (olog c) (deleg c).
+Definition set_strict (v : bool) (c : conn) : conn := mkconn (srv c) v (sid c) (kex c) (kexinit_sent c) (kex_complete c) (send_enc c) (recv_enc c) (next_recv c) (can_recv_ext c) (next_service c) (auth_in_prog c) (auth c) (req_issued c) (methods c) (auth_complete c) (auth_final c) (user c) (deferred c) (pending c) (closed c) (authed c) (unsolicited c) (app_events c) (desync c) (olog c) (deleg c).
+Definition set_sid (v : bool) (c : conn) : conn := mkconn (srv c) (strict c) v (kex c) (kexinit_sent c) (kex_complete c) (send_enc c) (recv_enc c) (next_recv c) (can_recv_ext c) (next_service c) (auth_in_prog c) (auth c) (req_issued c) (methods c) (auth_complete c) (auth_final c) (user c) (deferred c) (pending c) (closed c) (authed c) (unsolicited c) (app_events c) (desync c) (olog c) (deleg c).
+Definition set_kex (v : bool) (c : conn) : conn := mkconn (srv c) (strict c) (sid c) v (kexinit_sent c) (kex_complete c) (send_enc c) (recv_enc c) (next_recv c) (can_recv_ext c) (next_service c) (auth_in_prog c) (auth c) (req_issued c) (methods c) (auth_complete c) (auth_final c) (user c) (deferred c) (pending c) (closed c) (authed c) (unsolicited c) (app_events c) (desync c) (olog c) (deleg c).
+Definition set_kexinit_sent (v : bool) (c : conn) : conn := mkconn (srv c) (strict c) (sid c) (kex c) v (kex_complete c) (send_enc c) (recv_enc c) (next_recv c) (can_recv_ext c) (next_service c) (auth_in_prog c) (auth c) (req_issued c) (methods c) (auth_complete c) (auth_final c) (user c) (deferred c) (pending c) (closed c) (authed c) (unsolicited c) (app_events c) (desync c) (olog c) (deleg c).
+Definition set_kex_complete (v : bool) (c : conn) : conn := mkconn (srv c) (strict c) (sid c) (kex c) (kexinit_sent c) v (send_enc c) (recv_enc c) (next_recv c) (can_recv_ext c) (next_service c) (auth_in_prog c) (auth c) (req_issued c) (methods c) (auth_complete c) (auth_final c) (user c) (deferred c) (pending c) (closed c) (authed c) (unsolicited c) (app_events c) (desync c) (olog c) (deleg c).
+Definition set_send_enc (v : bool) (c : conn) : conn := mkconn (srv c) (strict c) (sid c) (kex c) (kexinit_sent c) (kex_complete c) v (recv_enc c) (next_recv c) (can_recv_ext c) (next_service c) (auth_in_prog c) (auth c) (req_issued c) (methods c) (auth_complete c) (auth_final c) (user c) (deferred c) (pending c) (closed c) (authed c) (unsolicited c) (app_events c) (desync c) (olog c) (deleg c).
+Definition set_recv_enc (v : bool) (c : conn) : conn := mkconn (srv c) (strict c) (sid c) (kex c) (kexinit_sent c) (kex_complete c) (send_enc c) v (next_recv c) (can_recv_ext c) (next_service c) (auth_in_prog c) (auth c) (req_issued c) (methods c) (auth_complete c) (auth_final c) (user c) (deferred c) (pending c) (closed c) (authed c) (unsolicited c) (app_events c) (desync c) (olog c) (deleg c).
+Definition set_next_recv (v : bool) (c : conn) : conn := mkconn (srv c) (strict c) (sid c) (kex c) (kexinit_sent c) (kex_complete c) (send_enc c) (recv_enc c) v (can_recv_ext c) (next_service c) (auth_in_prog c) (auth c) (req_issued c) (methods c) (auth_complete c) (auth_final c) (user c) (deferred c) (pending c) (closed c) (authed c) (unsolicited c) (app_events c) (desync c) (olog c) (deleg c).
+Definition set_can_recv_ext (v : bool) (c : conn) : conn := mkconn (srv c) (strict c) (sid c) (kex c) (kexinit_sent c) (kex_complete c) (send_enc c) (recv_enc c) (next_recv c) v (next_service c) (auth_in_prog c) (auth c) (req_issued c) (methods c) (auth_complete c) (auth_final c) (user c) (deferred c) (pending c) (closed c) (authed c) (unsolicited c) (app_events c) (desync c) (olog c) (deleg c).
+Definition set_next_service (v : bool) (c : conn) : conn := mkconn (srv c) (strict c) (sid c) (kex c) (kexinit_sent c) (kex_complete c) (send_enc c) (recv_enc c) (next_recv c) (can_recv_ext c) v (auth_in_prog c) (auth c) (req_issued c) (methods c) (auth_complete c) (auth_final c) (user c) (deferred c) (pending c) (closed c) (authed c) (unsolicited c) (app_events c) (desync c) (olog c) (deleg c).
+Definition set_auth_in_prog (v : bool) (c : conn) : conn := mkconn (srv c) (strict c) (sid c) (kex c) (kexinit_sent c) (kex_complete c) (send_enc c) (recv_enc c) (next_recv c) (can_recv_ext c) (next_service c) v (auth c) (req_issued c) (methods c) (auth_complete c) (auth_final c) (user c) (deferred c) (pending c) (closed c) (authed c) (unsolicited c) (app_events c) (desync c) (olog c) (deleg c).
+Definition set_auth (v : Z) (c : conn) : conn := mkconn (srv c) (strict c) (sid c) (kex c) (kexinit_sent c) (kex_complete c) (send_enc c) (recv_enc c) (next_recv c) (can_recv_ext c) (next_service c) (auth_in_prog c) v (req_issued c) (methods c) (auth_complete c) (auth_final c) (user c) (deferred c) (pending c) (closed c) (authed c) (unsolicited c) (app_events c) (desync c) (olog c) (deleg c).
+Definition set_req_issued (v : bool) (c : conn) : conn := mkconn (srv c) (strict c) (sid c) (kex c) (kexinit_sent c) (kex_complete c) (send_enc c) (recv_enc c) (next_recv c) (can_recv_ext c) (next_service c) (auth_in_prog c) (auth c) v (methods c) (auth_complete c) (auth_final c) (user c) (deferred c) (pending c) (closed c) (authed c) (unsolicited c) (app_events c) (desync c) (olog c) (deleg c).
+Definition set_methods (v : list Z) (c : conn) : conn := mkconn (srv c) (strict c) (sid c) (kex c) (kexinit_sent c) (kex_complete c) (send_enc c) (recv_enc c) (next_recv c) (can_recv_ext c) (next_service c) (auth_in_prog c) (auth c) (req_issued c) v (auth_complete c) (auth_final c) (user c) (deferred c) (pending c) (closed c) (authed c) (unsolicited c) (app_events c) (desync c) (olog c) (deleg c).
+Definition set_auth_complete (v : bool) (c : conn) : conn := mkconn (srv c) (strict c) (sid c) (kex c) (kexinit_sent c) (kex_complete c) (send_enc c) (recv_enc c) (next_recv c) (can_recv_ext c) (next_service c) (auth_in_prog c) (auth c) (req_issued c) (methods c) v (auth_final c) (user c) (deferred c) (pending c) (closed c) (authed c) (unsolicited c) (app_events c) (desync c) (olog c) (deleg c).
+Definition set_auth_final (v : bool) (c : conn) : conn := mkconn (srv c) (strict c) (sid c) (kex c) (kexinit_sent c) (kex_complete c) (send_enc c) (recv_enc c) (next_recv c) (can_recv_ext c) (next_service c) (auth_in_prog c) (auth c) (req_issued c) (methods c) (auth_complete c) v (user c) (deferred c) (pending c) (closed c) (authed c) (unsolicited c) (app_events c) (desync c) (olog c) (deleg c).
+Definition set_user (v : Z) (c : conn) : conn := mkconn (srv c) (strict c) (sid c) (kex c) (kexinit_sent c) (kex_complete c) (send_enc c) (recv_enc c) (next_recv c) (can_recv_ext c) (next_service c) (auth_in_prog c) (auth c) (req_issued c) (methods c) (auth_complete c) (auth_final c) v (deferred c) (pending c) (closed c) (authed c) (unsolicited c) (app_events c) (desync c) (olog c) (deleg c).
+Definition set_deferred (v : list Z) (c : conn) : conn := mkconn (srv c) (strict c) (sid c) (kex c) (kexinit_sent c) (kex_complete c) (send_enc c) (recv_enc c) (next_recv c) (can_recv_ext c) (next_service c) (auth_in_prog c) (auth c) (req_issued c) (methods c) (auth_complete c) (auth_final c) (user c) v (pending c) (closed c) (authed c) (unsolicited c) (app_events c) (desync c) (olog c) (deleg c).
+Definition set_pending (v : list task) (c : conn) : conn := mkconn (srv c) (strict c) (sid c) (kex c) (kexinit_sent c) (kex_complete c) (send_enc c) (recv_enc c) (next_recv c) (can_recv_ext c) (next_service c) (auth_in_prog c) (auth c) (req_issued c) (methods c) (auth_complete c) (auth_final c) (user c) (deferred c) v (closed c) (authed c) (unsolicited c) (app_events c) (desync c) (olog c) (deleg c).
+Definition set_closed (v : bool) (c : conn) : conn := mkconn (srv c) (strict c) (sid c) (kex c) (kexinit_sent c) (kex_complete c) (send_enc c) (recv_enc c) (next_recv c) (can_recv_ext c) (next_service c) (auth_in_prog c) (auth c) (req_issued c) (methods c) (auth_complete c) (auth_final c) (user c) (deferred c) (pending c) v (authed c) (unsolicited c) (app_events c) (desync c) (olog c) (deleg c).
+Definition set_authed (v : Z) (c : conn) : conn := mkconn (srv c) (strict c) (sid c) (kex c) (kexinit_sent c) (kex_complete c) (send_enc c) (recv_enc c) (next_recv c) (can_recv_ext c) (next_service c) (auth_in_prog c) (auth c) (req_issued c) (methods c) (auth_complete c) (auth_final c) (user c) (deferred c) (pending c) (closed c) v (unsolicited c) (app_events c) (desync c) (olog c) (deleg c).
+Definition set_unsolicited (v : bool) (c : conn) : conn := mkconn (srv c) (strict c) (sid c) (kex c) (kexinit_sent c) (kex_complete c) (send_enc c) (recv_enc c) (next_recv c) (can_recv_ext c) (next_service c) (auth_in_prog c) (auth c) (req_issued c) (methods c) (auth_complete c) (auth_final c) (user c) (deferred c) (pending c) (closed c) (authed c) v (app_events c) (desync c) (olog c) (deleg c).
+Definition set_app_events (v : Z) (c : conn) : conn := mkconn (srv c) (strict c) (sid c) (kex c) (kexinit_sent c) (kex_complete c) (send_enc c) (recv_enc c) (next_recv c) (can_recv_ext c) (next_service c) (auth_in_prog c) (auth c) (req_issued c) (methods c) (auth_complete c) (auth_final c) (user c) (deferred c) (pending c) (closed c) (authed c) (unsolicited c) v (desync c) (olog c) (deleg c).
+Definition set_desync (v : bool) (c : conn) : conn := mkconn (srv c) (strict c) (sid c) (kex c) (kexinit_sent c) (kex_complete c) (send_enc c) (recv_enc c) (next_recv c) (can_recv_ext c) (next_service c) (auth_in_prog c) (auth c) (req_issued c) (methods c) (auth_complete c) (auth_final c) (user c) (deferred c) (pending c) (closed c) (authed c) (unsolicited c) (app_events c) v (olog c) (deleg c).
+Definition set_olog (v : list (Z * Z)) (c : conn) : conn := mkconn (srv c) (strict c) (sid c) (kex c) (kexinit_sent c) (kex_complete c) (send_enc c) (recv_enc c) (next_recv c) (can_recv_ext c) (next_service c) (auth_in_prog c) (auth c) (req_issued c) (methods c) (auth_complete c) (auth_final c) (user c) (deferred c) (pending c) (closed c) (authed c) (unsolicited c) (app_events c) (desync c) v (deleg c).
+Definition set_deleg (v : bool) (c : conn) : conn := mkconn (srv c) (strict c) (sid c) (kex c) (kexinit_sent c) (kex_complete c) (send_enc c) (recv_enc c) (next_recv c) (can_recv_ext c) (next_service c) (auth_in_prog c) (auth c) (req_issued c) (methods c) (auth_complete c) (auth_final c) (user c) (deferred c) (pending c) (closed c) (authed c) (unsolicited c) (app_events c) (desync c) (olog c) v.
 
 (* counters and ghost history kept outside [conn] so that packet processing cannot touch them *)
 Record st := mkst {
@@ -99,13 +102,16 @@ Record st := mkst {
 
 Definition init_conn (server : bool) : conn :=
   mkconn server false false false false false false false false false false false 0 false [0] false false 0
-         [] [] false 0 false 0 false.
+         [] [] false 0 false 0 false [] false.
 Definition init (server : bool) : st := mkst (init_conn server) 0 0 (-1) (-1) [].
 
-Definition outs := list (Z * Z).            (* (message type, argument): argument = sequence number echoed by UNIMPLEMENTED *)
-Definition res := (conn * outs)%type.
-
 Definition M32 : Z := 4294967296.
+
+(* Every function below maps a connection state to a connection state; what is put on the wire is appended
+   to the ghost field [olog] as (message type, argument), argument = the sequence number echoed by an
+   UNIMPLEMENTED and 0 otherwise.  [deleg] is raised when a message is handed to the unmodelled
+   connection layer. *)
+Definition emit (c : conn) (t a : Z) : conn := set_olog (olog c ++ [(t, a)]) c.
 
 (* ---- sending ------------------------------------------------------------------------------------ *)
 (* send_packet: which packets are queued instead of sent *)
@@ -114,19 +120,18 @@ Definition defer_cond (c : conn) (t : Z) : bool :=
   || ((t =? 53) && negb (auth_in_prog c || auth_complete c))
   || ((79 <? t) && negb (auth_complete c)).
 
-Definition send_packet (c : conn) (t a : Z) : res :=
-  if defer_cond c t then (set_deferred (deferred c ++ [t]) c, [])
-  else (c, (if send_enc c && (49 <? t) then [(2, 0)] else []) ++ [(t, a)]).
+Definition send_packet (c : conn) (t a : Z) : conn :=
+  if defer_cond c t then set_deferred (deferred c ++ [t]) c
+  else emit (if send_enc c && (49 <? t) then emit c 2 0 else c) t a.        (* IGNORE in front of non-kex packets *)
 
-Fixpoint send_list (c : conn) (l : list Z) : res :=
+Fixpoint send_list (c : conn) (l : list Z) : conn :=
   match l with
-  | [] => (c, [])
-  | t :: r => let '(c1, o1) := send_packet c t 0 in
-              let '(c2, o2) := send_list c1 r in (c2, o1 ++ o2)
+  | [] => c
+  | t :: r => send_list (send_packet c t 0) r
   end.
 
 (* _send_deferred_packets *)
-Definition send_deferred (c : conn) : res := send_list (set_deferred [] c) (deferred c).
+Definition send_deferred (c : conn) : conn := send_list (set_deferred [] c) (deferred c).
 
 (* the sequence number bookkeeping at the end of send_packet (connection.py 1815-1822), one packet.
    Not modelled: the 'Sequence rollover before kex complete' guard on the send side (it needs 2^32 packets
@@ -135,54 +140,52 @@ Definition note_sent (strict_ : bool) (seq t : Z) : Z :=
   if (t =? 21) && strict_ then 0 else (seq + 1) mod M32.
 
 (* a DisconnectError raised while processing: DISCONNECT is sent, then the connection is closed *)
-Definition fatal (c : conn) : res := (set_closed true (set_pending [] c), [(1, 0)]).
+Definition fatal (c : conn) : conn := set_closed true (set_pending [] (emit c 1 0)).
 (* _force_close without a message *)
-Definition abort (c : conn) : res := (set_closed true (set_pending [] c), []).
+Definition abort (c : conn) : conn := set_closed true (set_pending [] c).
 
 (* process_packet returned False: UNIMPLEMENTED reply, or a strict KEX violation in the initial exchange *)
-Definition unimpl (c : conn) (seq : Z) : res :=
+Definition unimpl (c : conn) (seq : Z) : conn :=
   if strict c && negb (recv_enc c) then fatal c else send_packet c 3 seq.
 
 (* _send_kexinit *)
-Definition send_kexinit (c : conn) : res := (set_kex_complete false c, [(20, 0)]).
+Definition send_kexinit (c : conn) : conn := emit (set_kex_complete false c) 20 0.
 
 (* send_newkeys *)
-Definition send_newkeys (c : conn) : res :=
+Definition send_newkeys (c : conn) : conn :=
   let first := negb (sid c) in
-  let c1 := set_kex false (set_sid true c) in
+  let c1 := emit (set_kex false (set_sid true c)) 21 0 in
   let c2 := set_kex_complete true (set_next_recv true (set_send_enc true c1)) in
-  let '(c3, o3) := if first then
-                     (if srv c2 then (set_next_service true c2, [])
-                      else send_packet (set_next_service true c2) 5 0)
-                   else (c2, []) in
-  let '(c4, o4) := send_deferred c3 in
-  (c4, (21, 0) :: o3 ++ o4).
+  let c3 := if first then
+              (if srv c2 then set_next_service true c2 else send_packet (set_next_service true c2) 5 0)
+            else c2 in
+  send_deferred c3.
 
 (* ---- transport handlers --------------------------------------------------------------------------- *)
 (* KEXINIT.  cls: 0 = peer does not offer strict KEX, 1 = peer's strict marker present *)
-Definition on_kexinit (c : conn) (seq cls : Z) : res :=
+Definition on_kexinit (c : conn) (seq cls : Z) : conn :=
   if kex c then fatal c
   else
     let c1 := if negb (sid c) && (cls =? 1) then set_strict true c else c in
     if strict c1 && negb (recv_enc c1) && negb (seq =? 0) then fatal c1
     else
-      let '(c2, o2) := if kexinit_sent c1 then (set_kexinit_sent false c1, []) else send_kexinit c1 in
+      let c2 := if kexinit_sent c1 then set_kexinit_sent false c1 else send_kexinit c1 in
       let c3 := set_kex true c2 in
-      if srv c3 then (c3, o2) else (c3, o2 ++ [(30, 0)]).          (* client: kex.start() sends ECDH_INIT *)
+      if srv c3 then c3 else emit c3 30 0.                (* client: kex.start() sends ECDH_INIT *)
 
 (* NEWKEYS.  cls: 0 = sent by the peer's own protocol engine, 1 = injected: the receiving side switches to the
    new keys although the peer's engine has not, so from here on the byte stream cannot be decoded in step
    (what the implementation then does - wait for a nonsense packet length, or fail a MAC - is outside the
    model; [desync] marks it) *)
-Definition on_newkeys (c : conn) (cls : Z) : res :=
-  if next_recv c then (set_desync (cls =? 1) (set_can_recv_ext true (set_next_recv false (set_recv_enc true c))), [])
+Definition on_newkeys (c : conn) (cls : Z) : conn :=
+  if next_recv c then set_desync (cls =? 1) (set_can_recv_ext true (set_next_recv false (set_recv_enc true c)))
   else fatal c.
 
 (* the key exchange handler (ECDH family: INIT = 30, REPLY = 31).  cls: 0 = valid, other = rejected *)
-Definition on_kexmsg (c : conn) (seq t cls : Z) : res :=
+Definition on_kexmsg (c : conn) (seq t cls : Z) : conn :=
   if t =? 30 then
     (if negb (srv c) then fatal c
-     else if cls =? 0 then let '(c1, o1) := send_newkeys c in (c1, (31, 0) :: o1) else fatal c)
+     else if cls =? 0 then send_newkeys (emit c 31 0) else fatal c)
   else if t =? 31 then
     (if srv c then fatal c else if cls =? 0 then send_newkeys c else fatal c)
   else unimpl c seq.
@@ -191,32 +194,29 @@ Definition on_kexmsg (c : conn) (seq t cls : Z) : res :=
 Definition not_client_task (k : task) : bool :=
   match k with TClientAuth _ => false | TChangePw => false | _ => true end.
 
-Definition try_next_auth (c : conn) (next_method : bool) : res :=
+Definition try_next_auth (c : conn) (next_method : bool) : conn :=
   let c1 := set_req_issued false (set_auth 0 (set_pending (filter not_client_task (pending c)) c)) in
   let ms := if next_method then tl (methods c1) else methods c1 in
   let c2 := set_methods ms c1 in
   match ms with
-  | m :: _ => (set_pending (pending c2 ++ [TClientAuth m]) (set_auth (m + 1) c2), [])
+  | m :: _ => set_pending (pending c2 ++ [TClientAuth m]) (set_auth (m + 1) c2)
   | [] => abort c2                                   (* PermissionDenied: _force_close *)
   end.
 
 (* SERVICE_REQUEST / SERVICE_ACCEPT.  cls: 0 = "ssh-userauth", other = another name *)
-Definition on_service_request (c : conn) (cls : Z) : res :=
+Definition on_service_request (c : conn) (cls : Z) : conn :=
   if negb (srv c) then fatal c
   else if negb (recv_enc c) then fatal c
   else if negb ((cls =? 0) && next_service c) then fatal c
-  else
-    let '(c1, o1) := send_packet c 6 0 in
-    let c2 := set_can_recv_ext false (set_auth_in_prog true (set_next_service false c1)) in
-    let '(c3, o3) := send_deferred c2 in (c3, o1 ++ o3).
+  else send_deferred (set_can_recv_ext false (set_auth_in_prog true (set_next_service false (send_packet c 6 0)))).
 
-Definition on_service_accept (c : conn) (cls : Z) : res :=
+Definition on_service_accept (c : conn) (cls : Z) : conn :=
   if srv c then fatal c
   else if negb (recv_enc c) then fatal c
   else if negb ((cls =? 0) && next_service c) then fatal c
   else try_next_auth (set_auth_in_prog true (set_next_service false c)) false.
 
-Definition on_ext_info (c : conn) : res := if can_recv_ext c then (c, []) else fatal c.
+Definition on_ext_info (c : conn) : conn := if can_recv_ext c then c else fatal c.
 
 (* ---- authentication ----------------------------------------------------------------------------------- *)
 (* the harness server's password table: user 1 has password 1, user 2 has password 2 *)
@@ -224,81 +224,83 @@ Definition pw_valid (u pw : Z) : bool := ((u =? 1) && (pw =? 1)) || ((u =? 2) &&
 
 (* USERAUTH_REQUEST.  cls = 100*user + 10*method + password;  user 1..3, method 0 none / 1 password /
    2 unknown, password 0 wrong / 1 / 2;  cls < 0: wrong service name *)
-Definition on_userauth_request (c : conn) (cls : Z) : res :=
+Definition on_userauth_request (c : conn) (cls : Z) : conn :=
   if cls <? 0 then fatal c
   else if negb (srv c) then fatal c
-  else if auth_complete c then (if auth_final c then fatal c else (c, []))
+  else if auth_complete c then (if auth_final c then fatal c else c)
   else
     let u := cls / 100 in
     let begin := negb (u =? user c) in
-    (set_pending (pending c ++ [TFinishUA begin ((cls / 10) mod 10) (cls mod 10)]) (set_user u c), []).
+    set_pending (pending c ++ [TFinishUA begin ((cls / 10) mod 10) (cls mod 10)]) (set_user u c).
 
-Definition send_userauth_failure (c : conn) : res := send_packet (set_auth 0 c) 51 0.
+Definition send_userauth_failure (c : conn) : conn := send_packet (set_auth 0 c) 51 0.
 
-Definition send_userauth_success (c : conn) : res :=
-  let '(c1, o1) := send_packet c 52 0 in
-  let c2 := set_authed (user c1) (set_next_service false (set_auth_complete true
-            (set_auth_in_prog false (set_auth 0 c1)))) in
-  let '(c3, o3) := send_deferred c2 in (c3, o1 ++ o3).
+Definition send_userauth_success (c : conn) : conn :=
+  let c1 := send_packet c 52 0 in
+  send_deferred (set_authed (user c1) (set_next_service false (set_auth_complete true
+                (set_auth_in_prog false (set_auth 0 c1))))).
 
 (* USERAUTH_FAILURE (client).  cls: 0 = the list offers password, other = it does not *)
-Definition on_userauth_failure (c : conn) (cls : Z) : res :=
+Definition on_userauth_failure (c : conn) (cls : Z) : conn :=
   let c1 := set_methods (if cls =? 0 then [1] else []) c in
   if negb (srv c1) && negb (auth c1 =? 0) then try_next_auth c1 false else fatal c1.
 
 (* USERAUTH_SUCCESS (client) *)
-Definition on_userauth_success (fixed : bool) (c : conn) : res :=
+Definition on_userauth_success (fixed : bool) (c : conn) : conn :=
   if negb (srv c) && negb (auth c =? 0) && (negb fixed || req_issued c) then
     let c1 := set_unsolicited (unsolicited c || negb (req_issued c)) c in
-    let c2 := set_authed 1 (set_can_recv_ext false (set_auth_complete true (set_auth_in_prog false
-              (set_req_issued false (set_auth 0 (set_pending (filter not_client_task (pending c1)) c1)))))) in
-    send_deferred c2
+    send_deferred (set_authed 1 (set_can_recv_ext false (set_auth_complete true (set_auth_in_prog false
+                  (set_req_issued false (set_auth 0 (set_pending (filter not_client_task (pending c1)) c1)))))))
   else fatal c.
 
 (* the client hands the banner to the application (auth_banner_received) *)
-Definition on_banner (c : conn) : res := if srv c then fatal c else (set_app_events (app_events c + 1) c, []).
+Definition on_banner (c : conn) : conn := if srv c then fatal c else set_app_events (app_events c + 1) c.
 
 (* method specific messages 60..79, routed to the auth object:
    auth 1 = client 'none' (no handlers), 2 = client password (60 = PASSWD_CHANGEREQ), 3 = server password
    object (no handlers) *)
-Definition on_authmsg (c : conn) (seq t : Z) : res :=
-  if (auth c =? 2) && (t =? 60) then (set_pending (pending c ++ [TChangePw]) c, [])
+Definition on_authmsg (c : conn) (seq t : Z) : conn :=
+  if (auth c =? 2) && (t =? 60) then set_pending (pending c ++ [TChangePw]) c
   else unimpl c seq.
 
 (* ---- the phase gate of _recv_packet ------------------------------------------------------------------- *)
 Definition is_deleg (t : Z) : bool :=
   (t =? 80) || (t =? 81) || (t =? 82) || (t =? 90) || (t =? 91) || (t =? 92) || ((93 <=? t) && (t <=? 127)).
 
-Definition dispatch (fixed : bool) (c : conn) (seq t cls : Z) : res * bool :=    (* bool: delegated *)
-  if (30 <=? t) && (t <=? 49) then ((if kex c then on_kexmsg c seq t cls else fatal c), false)
-  else if strict c && negb (recv_enc c) && (2 <=? t) && (t <=? 4) then (fatal c, false)
-  else if (60 <=? t) && (t <=? 79) then ((if negb (auth c =? 0) then on_authmsg c seq t else fatal c), false)
-  else if (49 <? t) && negb (recv_enc c) then (fatal c, false)
-  else if (79 <? t) && negb (auth_complete c) then (fatal c, false)
-  else if is_deleg t then ((c, []), true)
-  else
-    ((if t =? 1 then abort c
-      else if (t =? 2) || (t =? 3) || (t =? 4) then (c, [])
-      else if t =? 5 then on_service_request c cls
-      else if t =? 6 then on_service_accept c cls
-      else if t =? 7 then on_ext_info c
-      else if t =? 20 then on_kexinit c seq cls
-      else if t =? 21 then on_newkeys c cls
-      else if t =? 50 then on_userauth_request c cls
-      else if t =? 51 then on_userauth_failure c cls
-      else if t =? 52 then on_userauth_success fixed c
-      else if t =? 53 then on_banner c
-      else unimpl c seq), false).
+Definition on_connmsg (fixed : bool) (c : conn) (seq t cls : Z) : conn :=
+  if t =? 1 then abort c
+  else if (t =? 2) || (t =? 3) || (t =? 4) then c
+  else if t =? 5 then on_service_request c cls
+  else if t =? 6 then on_service_accept c cls
+  else if t =? 7 then on_ext_info c
+  else if t =? 20 then on_kexinit c seq cls
+  else if t =? 21 then on_newkeys c cls
+  else if t =? 50 then on_userauth_request c cls
+  else if t =? 51 then on_userauth_failure c cls
+  else if t =? 52 then on_userauth_success fixed c
+  else if t =? 53 then on_banner c
+  else unimpl c seq.
+
+Definition dispatch (fixed : bool) (c : conn) (seq t cls : Z) : conn :=
+  if (30 <=? t) && (t <=? 49) then (if kex c then on_kexmsg c seq t cls else fatal c)
+  else if strict c && negb (recv_enc c) && (2 <=? t) && (t <=? 4) then fatal c
+  else if (60 <=? t) && (t <=? 79) then (if negb (auth c =? 0) then on_authmsg c seq t else fatal c)
+  else if (49 <? t) && negb (recv_enc c) then fatal c
+  else if (79 <? t) && negb (auth_complete c) then fatal c
+  else if is_deleg t then set_deleg true c
+  else on_connmsg fixed c seq t cls.
+
+Definition with_conn (s : st) (c : conn) : st :=
+  mkst c (recv_seq s) (send_seq s) (last_recv s) (last_sent s) (clear_acc s).
 
 (* _finish_recv_packet *)
-Definition finish_recv (s : st) (c1 : conn) (t : Z) : st * outs :=
+Definition finish_recv (s : st) (c1 : conn) (t : Z) : st :=
   let seq := recv_seq s in
   let c2 := if 79 <? t then set_auth_final true c1 else c1 in
-  if (seq =? M32 - 1) && negb (recv_enc c2) then
-    let '(c3, o3) := fatal c2 in (mkst c3 seq (send_seq s) (last_recv s) (last_sent s) (clear_acc s), o3)
+  if (seq =? M32 - 1) && negb (recv_enc c2) then with_conn s (fatal c2)     (* 'Sequence rollover before kex complete' *)
   else
-    (mkst c2 (if (t =? 21) && strict c2 then 0 else (seq + 1) mod M32) (send_seq s) t (last_sent s)
-          (if recv_enc (cn s) then clear_acc s else clear_acc s ++ [t]), []).
+    mkst c2 (if (t =? 21) && strict c2 then 0 else (seq + 1) mod M32) (send_seq s) t (last_sent s)
+         (if recv_enc (cn s) then clear_acc s else clear_acc s ++ [t]).
 
 (* bookkeeping for everything the endpoint put on the wire in one step *)
 Fixpoint note_all (s : st) (l : list Z) : st :=
@@ -309,36 +311,33 @@ Fixpoint note_all (s : st) (l : list Z) : st :=
   end.
 
 (* one received packet *)
-Definition recv (fixed : bool) (s : st) (t cls : Z) : st * outs * bool :=
-  if closed (cn s) then (s, [], false)
+Definition recv (fixed : bool) (s : st) (t cls : Z) : st :=
+  if closed (cn s) then s
   else
-    let '((c1, o1), dg) := dispatch fixed (cn s) (recv_seq s) t cls in
-    if closed c1 then (mkst c1 (recv_seq s) (send_seq s) (last_recv s) (last_sent s) (clear_acc s), o1, dg)
-    else let '(s2, o2) := finish_recv s c1 t in (s2, o1 ++ o2, dg).
+    let c1 := dispatch fixed (cn s) (recv_seq s) t cls in
+    if closed c1 then with_conn s c1 else finish_recv s c1 t.
 
 (* ---- tasks ------------------------------------------------------------------------------------------------ *)
-Definition run_task (c : conn) (k : task) : res :=
+Definition run_task (c : conn) (k : task) : conn :=
   match k with
-  | TClientAuth m =>                      (* send_userauth_request: the request is handed to send_packet *)
-      let '(c1, o1) := send_packet c 50 0 in (set_req_issued true c1, o1)
-  | TChangePw => try_next_auth (set_app_events (app_events c + 1) c) true   (* password_change_requested -> NotImplemented *)
+  | TClientAuth m => set_req_issued true (send_packet c 50 0)     (* send_userauth_request hands the request to send_packet *)
+  | TChangePw => try_next_auth (set_app_events (app_events c + 1) c) true    (* password_change_requested -> NotImplemented *)
   | TFinishUA begin method pw =>
       (* begin_auth answers True; an auth object in progress is cancelled; lookup_server_auth *)
-      if method =? 1 then (set_pending (pending c ++ [TServerPw (user c) pw]) (set_auth 3 c), [])
+      if method =? 1 then set_pending (pending c ++ [TServerPw (user c) pw]) (set_auth 3 c)
       else send_userauth_failure c
   | TServerPw u pw =>
       if pw_valid u pw then send_userauth_success c else send_userauth_failure c
   end.
 
-Fixpoint run_tasks (fuel : nat) (c : conn) : res :=
+Fixpoint run_tasks (fuel : nat) (c : conn) : conn :=
   match fuel with
-  | O => (c, [])
+  | O => c
   | S f =>
-    if closed c then (c, []) else
+    if closed c then c else
     match pending c with
-    | [] => (c, [])
-    | k :: r => let '(c1, o1) := run_task (set_pending r c) k in
-                let '(c2, o2) := run_tasks f c1 in (c2, o1 ++ o2)
+    | [] => c
+    | k :: r => run_tasks f (run_task (set_pending r c) k)
     end
   end.
 
@@ -349,23 +348,22 @@ Inductive event :=
 | EvRecv (t cls : Z)             (* one packet of type t *)
 | EvSettle.                      (* the event loop runs every ready task *)
 
-Definition with_conn (s : st) (c : conn) : st :=
-  mkst c (recv_seq s) (send_seq s) (last_recv s) (last_sent s) (clear_acc s).
-
-(* one event: new state, what the transport/auth layer sent (in order), delegated? *)
-Definition step (fixed : bool) (s : st) (e : event) : st * outs * bool :=
+(* one event *)
+Definition step (fixed : bool) (s : st) (e : event) : st :=
   match e with
   | EvVersion =>
-      if closed (cn s) then (s, [], false)
-      else let '(c1, o1) := send_kexinit (cn s) in (with_conn s (set_kexinit_sent true c1), o1, false)
+      if closed (cn s) then s else with_conn s (set_kexinit_sent true (send_kexinit (cn s)))
   | EvRecv t cls => recv fixed s t cls
-  | EvSettle => let '(c1, o1) := run_tasks TASK_FUEL (cn s) in (with_conn s c1, o1, false)
+  | EvSettle => with_conn s (run_tasks TASK_FUEL (cn s))
   end.
+
+(* forget what the previous step logged *)
+Definition begin_step (s : st) : st := with_conn s (set_deleg false (set_olog [] (cn s))).
 
 (* a run with the send-side bookkeeping applied to exactly the packets the model itself emits
    (the correspondence checker instead books every packet the real endpoint was seen to send) *)
 Definition step_booked (fixed : bool) (s : st) (e : event) : st :=
-  let '(s1, o1, _) := step fixed s e in note_all s1 (map fst o1).
+  let s1 := step fixed (begin_step s) e in note_all s1 (map fst (olog (cn s1))).
 
 Definition run (fixed : bool) (s : st) (l : list event) : st := fold_left (step_booked fixed) l s.
 
